@@ -11,14 +11,20 @@ old = json.load(open("/verif/theorems.json")) if os.path.exists("/verif/theorems
 reg = {}
 for p in props:
     mods = sorted(f[:-5] for f in os.listdir(LEAN + "/ZkProofs/Props") if re.fullmatch(p + r"\w*\.lean", f))
+    # modules that are not named after a property but belong to one (module, namespace)
+    EXTRA = {"C08": [("Concrete", "ConcreteFacts")]}
     thms = []
+    nsmap = {m: m for m in mods}
+    for m, ns in EXTRA.get(p, []):
+        mods.append(m)
+        nsmap[m] = ns
     for mod in mods:
         src = "import ZkProofs.Props.%s\nimport ListThms\n#list_thms ZkProofs.Props.%s\n" % (mod, mod)
         f = WORK + "/lt_%s.lean" % mod
         open(f, "w").write(src)
         out = subprocess.run(["lean", f], env=dict(os.environ, LEAN_PATH=WORK + ":" + lp), capture_output=True, text=True).stdout
         for l in out.split("\n"):
-            m = re.match(r".*?: (Zk\.%s\.[^\t]+)\t(.*)$" % mod, l) or re.match(r"^(Zk\.%s\.[^\t]+)\t(.*)$" % mod, l)
+            m = re.match(r".*?: (Zk\.%s\.[^\t]+)\t(.*)$" % nsmap[mod], l) or re.match(r"^(Zk\.%s\.[^\t]+)\t(.*)$" % nsmap[mod], l)
             if m:
                 name, doc = m.group(1), m.group(2).strip()
                 if ".match_" in name or ".proof_" in name or name.endswith(".eq_1") or "._" in name:
